@@ -457,7 +457,7 @@ class C04(Check):
     }
     shrink_lists = ["attempts", "attempts.0.events", "attempts.1.events", "attempts.2.events", "attempts.3.events", "reconnect"]
     quick_runs = 60000
-    thorough_runs = 3000000
+    thorough_runs = 8000000
     chunk = 500
 
     def setup_process(self) -> None:
